@@ -54,6 +54,74 @@ def corpus(rng, n):
     return out
 
 
+INVISIBLE = re.compile(r"[\s\u00a0\u2061-\u2064\u200b-\u200f\u00ad\u2060\ufeff\ue000-\uf8ff\U000F0000-\U0010FFFD]")
+KEY = re.compile(r'^\s*-\s*"((?:[^"\\]|\\.)+)"\s*:', re.M)
+
+
+def table_chars(path):
+    """the characters a Unicode table has an entry for (both ends of a range entry)"""
+    try:
+        with open(path, encoding="utf-8") as f:
+            text = f.read()
+    except OSError:
+        return []
+    out = []
+    for k in KEY.findall(text):
+        try:
+            k = json.loads('"' + k + '"')
+        except ValueError:
+            continue
+        cs = list(k)
+        if len(cs) == 3 and cs[1] == "-":
+            out += [cs[0], cs[2]]
+        elif len(cs) == 1:
+            out.append(cs[0])
+    return [c for c in dict.fromkeys(out) if not INVISIBLE.match(c) and c not in "<&"]
+
+
+def table_sweep(ctx, im, oracle_fail):
+    """every character that a language's Unicode tables pronounce, alone in a token, at every verbosity: it must be spoken as
+    words (a character that is silent at one verbosity drops an operator or a relation from every expression that uses it)"""
+    rng = ctx.rng
+    n = 0
+    per_lang = {}
+    base = core.rules_dir() + "/Languages/"
+    for lang in [l for l in speech_run.languages() if "-" not in l or l in ("en-gb", "zh-tw")]:
+        d = base + lang.replace("-", "/") + "/"
+        short = table_chars(d + "unicode.yaml") or table_chars(base + lang.split("-")[0] + "/unicode.yaml")
+        full = [c for c in (table_chars(d + "unicode-full.yaml") or table_chars(base + lang.split("-")[0] + "/unicode-full.yaml")) if c not in short]
+        if ctx.tier == "quick":
+            full = rng.sample(full, min(len(full), 150))
+        chars = short + full
+        per_lang[lang] = len(chars)
+        for verb in speech_run.VERBOSITY:
+            cfg = {"Language": lang, "SpeechStyle": "ClearSpeak", "Verbosity": verb}
+            pre = core.prelude([{"op": "set_pref", "name": "TTS", "value": "None"}] + [{"op": "set_pref", "name": k, "value": v} for k, v in cfg.items()])
+            reqs = [{"op": "session"}] + pre
+            xmls = ["<math><mi>x</mi><mo>%s</mo><mi>y</mi></math>" % c if k % 2 else "<math><mo>%s</mo></math>" % c for k, c in enumerate(chars)]
+            for x in xmls:
+                reqs += [{"op": "set_mathml", "xml": x}, {"op": "speech"}]
+            rep = im.run(reqs, prelude=pre)[1 + len(pre):]
+            for k, (c, x) in enumerate(zip(chars, xmls)):
+                st, sp = rep[2 * k: 2 * k + 2] if len(rep) >= 2 * k + 2 else ({}, {})
+                lines = pre + [{"op": "set_mathml", "xml": x}, {"op": "speech"}]
+                if st.get("r") != "ok":
+                    continue
+                n += 1
+                if sp.get("r") != "ok":
+                    oracle_fail.append({"why": "speech fails: " + (sp.get("msg") or sp.get("r") or "")[-80:], "config": cfg, "xml": x, "reply": sp, "lines": lines})
+                    continue
+                words = re.sub(r"[\s,;.]", "", sp["v"])
+                if k % 2:
+                    words = words.replace("x", "", 1).replace("y", "", 1)
+                d = dirty(sp["v"], x)
+                if d:
+                    oracle_fail.append({"why": "speech contains " + ", ".join(d), "config": cfg, "xml": x, "speech": sp["v"], "lines": lines})
+                elif not words:
+                    oracle_fail.append({"why": "a character of the language's Unicode table is not spoken at this verbosity", "char": "U+%04X" % ord(c), "config": cfg, "xml": x, "speech": sp["v"], "lines": lines})
+    return n, per_lang
+
+
 def run(ctx):
     pr = core.prove("C05")
     core.proof_coverage(ctx, pr, "lake build MC.Props.C05 && lake env lean build/audit_C05.lean (#print axioms)", [
@@ -122,17 +190,20 @@ def run(ctx):
                     d = dirty(r["v"], x)
                     if d:
                         oracle_fail.append({"why": "navigation speech contains " + ", ".join(d), "config": cfg, "xml": x, "speech": r["v"], "cmd": q["cmd"], "lines": lines})
+    n_sweep, sweep_langs = table_sweep(ctx, im, oracle_fail)
     im.close()
     mo.close()
     for f in oracle_fail:
         k = re.sub(r"U\+[0-9A-F]+", "U+…", f["why"])[:70]
         kinds[k] = kinds.get(k, 0) + 1
     ctx.coverage.update({
-        "evaluations": n_speech + n_overview + n_nav, "distinct_nontrivial": n_speech,
+        "evaluations": n_speech + n_overview + n_nav + n_sweep, "distinct_nontrivial": n_speech,
         "rule": "fixed corpus + generated textbook expressions whose leaves are replaced by characters from unicode.yaml, only from unicode-full.yaml, from no table (unassigned, private use, emoji, "
                 "CJK, ligatures), invisible operators and NBSP, capital letters; every language directory x {ClearSpeak, SimpleSpeak} x {Terse, Medium, Verbose} x a capital-letter/override/impairment "
                 "preference; get_spoken_text, get_overview_text and the speech returned by navigation commands are searched for private-use characters, [[ ]], raw invisible operators and markup, "
                 "and must contain a word when the expression has visible content. non-trivial = get_spoken_text evaluations",
+        "unicode_table_sweep": {"evaluations": n_sweep, "characters_per_language": sweep_langs,
+                                 "rule": "every character with an entry in the language's unicode.yaml (quick: plus 150 sampled from unicode-full.yaml; thorough: all of it), alone and between two identifiers, at the three verbosities"},
         "languages": langs, "configs": len(cfgs), "speech": n_speech, "overview": n_overview, "navigation_replies": n_nav, "odd_characters_exercised": len(odd_seen),
         "join_log_entries_replayed_through_model": n_entries, "theorem_hypotheses_on_logged_joins": dict(speech_run.HYP),
         "oracle_failure_kinds": kinds,
